@@ -245,7 +245,7 @@ func gen(tier string, rng *h.Rng, emit func(string)) {
 	emit("fe -")
 	emit("fe x")
 	// 1b. random histories, 1..3 streams, random interleaving
-	nfe := 1500
+	nfe := 3000
 	if thorough {
 		nfe = 20000
 	}
@@ -273,7 +273,7 @@ func gen(tier string, rng *h.Rng, emit func(string)) {
 		emit("fe " + joinOr(m, ","))
 	}
 	// 2. merge + firstEvent, concurrent feeders (histories inside the property: block numbers > 0)
-	nmg := 400
+	nmg := 800
 	if thorough {
 		nmg = 5000
 	}
@@ -308,7 +308,7 @@ func gen(tier string, rng *h.Rng, emit func(string)) {
 	}
 	// 3. the real adaptor
 	lists := [][]int{nodeSubscribes}
-	nsub := 220
+	nsub := 600
 	if thorough {
 		nsub = 2500
 		lists = append(lists, []int{3, 6, 8, 9, 14, 15, 16}, []int{0, 1, 2, 3, 4, 5, 6, 7, 8, 9, 13, 14, 15, 16})
